@@ -1130,10 +1130,16 @@ static int emit_cases(const eng::Args& a)
         Choice ch(bytes);
         int cls = int(ch.weighted({5, 3, 3}));      // 0 conflict-free, 1 precedence (S/R), 2 recovery
         if (const char* only = getenv("EMIT_ONLY_CLASS")) cls = atoi(only);
+        // gallery (C01/C02's programs): the first attempts are the seed grammars as written, one after the other - shapes that random mutation keeps only rarely
+        // (no empty rule anywhere, indirect left recursion in a particular source order, ...) reach the DSL front end in every run
+        static size_t attempts = 0; gg::force_seed() = -1;
+        if (getenv("EMIT_SEED_GALLERY") && attempts < 18) { gg::force_seed() = int(attempts); cls = 0; }
+        ++attempts;
         GCase c; c.tmpl = 0;
         c.g = gg::gen_grammar(ch, cls == 0 ? gg::CONFLICT_FREE : cls == 1 ? gg::PRECEDENCE : gg::RECOVERY, c.strategy, tpl::t36_slots());
         Grammar& g = c.g;
-        if (g.rules.size() < 3 || g.rules.size() > 9) return;
+        const bool gallery = gg::force_seed() >= 0; gg::force_seed() = -1;
+        if (g.rules.size() < 3 || g.rules.size() > (gallery ? 12u : 9u)) return;
         // compiled programs use the default functor only where it means "pass the nonterminal's value on"
         for (auto& r : g.rules) if (r.passthrough && !(r.rhs.size() == 1 && !r.rhs[0].term)) r.passthrough = false;
         // drop unused nonterminals' rules? no: unused symbols are part of the domain. But every nonterminal that is used must have been declared: all N0..N5 are.
@@ -1143,7 +1149,7 @@ static int emit_cases(const eng::Args& a)
         if (cls == 0 && !pr.table.conflict_free()) return;
         if (cls == 1 && (!pr.table.has_sr || g.uses_error())) return;
         if (cls == 2 && !g.uses_error()) return;
-        if (per_class[cls] * 2 > want + 2 && !getenv("EMIT_ONLY_CLASS")) return;
+        if (per_class[cls] * 2 > want + 2 && !getenv("EMIT_ONLY_CLASS") && !gallery) return;
         { int reach = 0; for (int n = 0; n < g.nN; ++n) if (pr.an.reachable[size_t(n)]) ++reach; if (reach < 2 && !pr.an.left_rec && !pr.an.right_rec) return; }
         if (!seen.insert(g.hash()).second) return;
         eng::Rng rng = ch.fork();
